@@ -824,3 +824,200 @@ Proof.
     destruct (x_state x =? 0); cbn [negb] in Hg; [exact (Ht id n h0 Hg)|].
     destruct (get id tr) as [[[n1 h1] b1]|] eqn:Et; [rewrite get_set_same in Hg; discriminate|]. rewrite Et in Hg. discriminate.
 Qed.
+
+(** ** the checker's schedule [sc]: an entry (id, hh) means "the next batch of id is scheduled at hh" *)
+Definition SI (s : state) (sc : sched) : Prop :=
+  forall id hh, get id sc = Some hh -> hh <= height s \/ get id (newmark s) = Some hh.
+
+Lemma mark_persist c s st id H :
+  fresh_ctx s st -> SInv s -> (H <= height s \/ get id (newmark s) = Some H) ->
+  H <= height (apply c s st) \/ get id (newmark (apply c s st)) = Some H.
+Proof.
+  intros Hf Hs Hm.
+  assert (R : SR (g_batches s) id H s).
+  { split; [exact Hs|]. split; [intros e He Hn; contradiction|]. destruct Hm as [Hm|Hm]; [right|left]; exact Hm. }
+  destruct (SR_apply_m _ _ _ c s st Hf R) as (_ & _ & [R2|R2]); [right|left]; exact R2.
+Qed.
+
+Lemma end_block_height c s dt : height (end_block c s dt) = height s + 1.
+Proof.
+  unfold end_block. cbv zeta. cbn [height with_iidx with_time with_height].
+  assert (H1 : height (fold_left (expired_batch_handler c) (due (height s) (expq s)) s) = height s).
+  { apply (fold_left_inv (fun t => height t = height s)); [|reflexivity]. intros t id Ht. rewrite expired_handler_height. exact Ht. }
+  set (s1 := fold_left (expired_batch_handler c) _ s) in *.
+  assert (H2 : height (fold_left new_batch_handler (due (height s1) (newq s1)) s1) = height s).
+  { apply (fold_left_inv (fun t => height t = height s)); [|exact H1]. intros t id Ht. rewrite new_handler_height. exact Ht. }
+  lia.
+Qed.
+
+Definition sched_v (tr : track) (p o : obs) (h : Z) (id : ctxid) (x : ctx_t) (cur : option Z) : option Z :=
+  let c1 := match cur with Some hh => if hh <=? h then None else Some hh | None => None end in
+  if eqb (get id (o_expmark p)) (Some h) && t_rep x && (t_state x =? 0) && ((t_total x <? 0) || (t_batch x <? t_total x))
+  then match get id tr, get id (o_ctxs o) with
+       | Some (n, h0, true), Some x' =>
+           if (n =? t_batch x) && (t_state x' =? 0) && (t_freq x' =? t_freq x) then Some (h0 + t_freq x) else c1
+       | _, _ => c1
+       end
+  else c1.
+
+Definition sched_g (tr : track) (p o : obs) (h : Z) (e : ctxid * ctx_t) (t : sched) : sched :=
+  let '(id, x) := e in
+  let t1 := match get id t with Some hh => if hh <=? h then del id t else t | None => t end in
+  if eqb (get id (o_expmark p)) (Some h) && t_rep x && (t_state x =? 0) && ((t_total x <? 0) || (t_batch x <? t_total x))
+  then match get id tr, get id (o_ctxs o) with
+       | Some (n, h0, true), Some x' =>
+           if (n =? t_batch x) && (t_state x' =? 0) && (t_freq x' =? t_freq x) then set id (h0 + t_freq x) t1 else t1
+       | _, _ => t1
+       end
+  else t1.
+
+Lemma update_sched_end sc tr p dt o :
+  update_sched sc tr p (EndBlock dt) o = fold_left (fun t e => sched_g tr p o (o_height p) e t) (o_ctxs p) sc.
+Proof. reflexivity. Qed.
+
+Lemma sched_g_get tr p o h id x t : get id (sched_g tr p o h (id, x) t) = sched_v tr p o h id x (get id t).
+Proof.
+  unfold sched_g, sched_v.
+  assert (T1 : get id (match get id t with Some hh => if hh <=? h then del id t else t | None => t end)
+               = match get id t with Some hh => if hh <=? h then None else Some hh | None => None end).
+  { destruct (get id t) as [hh|] eqn:E; [|exact E]. destruct (hh <=? h); [apply get_del_same|exact E]. }
+  destruct (eqb _ _ && _ && _ && _); [|exact T1].
+  destruct (get id tr) as [[[n h0] [|]]|]; try exact T1. destruct (get id (o_ctxs o)) as [x'|]; [|exact T1].
+  destruct (_ && _ && _); [apply get_set_same|exact T1].
+Qed.
+
+Lemma sched_g_other tr p o h e t k : k <> fst e -> get k (sched_g tr p o h e t) = get k t.
+Proof.
+  destruct e as [id x]. cbn [fst]. intros Hne. unfold sched_g.
+  assert (T1 : get k (match get id t with Some hh => if hh <=? h then del id t else t | None => t end) = get k t).
+  { destruct (get id t) as [hh|]; [|reflexivity]. destruct (hh <=? h); [apply get_del_other; exact Hne|reflexivity]. }
+  destruct (eqb _ _ && _ && _ && _); [|exact T1].
+  destruct (get id tr) as [[[n h0] [|]]|]; try exact T1. destruct (get id (o_ctxs o)) as [x'|]; [|exact T1].
+  destruct (_ && _ && _); [rewrite get_set_other by exact Hne|]; exact T1.
+Qed.
+
+Lemma sched_g_loc tr p o h e t t' : get (fst e) t = get (fst e) t' -> get (fst e) (sched_g tr p o h e t) = get (fst e) (sched_g tr p o h e t').
+Proof. destruct e as [id x]. cbn [fst]. intros E. rewrite !sched_g_get, E. reflexivity. Qed.
+
+Lemma sched_end_get univ c s dt sc tr id pc pn pb :
+  NoDup (keys (ctxs s)) ->
+  get id (update_sched sc tr (obs_of univ pc pn pb s) (EndBlock dt) (obs_step univ c s (EndBlock dt))) =
+  match get id (ctxs s) with
+  | Some x => sched_v tr (obs_of univ pc pn pb s) (obs_step univ c s (EndBlock dt)) (height s) id (ctx_tuple x) (get id sc)
+  | None => get id sc
+  end.
+Proof.
+  intros Hnd. rewrite update_sched_end. set (p := obs_of univ pc pn pb s). set (o := obs_step univ c s (EndBlock dt)).
+  change (o_height p) with (height s). change (o_ctxs p) with (map (fun e : ctxid * context => (fst e, ctx_tuple (snd e))) (ctxs s)).
+  assert (Hnd' : NoDup (map fst (map (fun e : ctxid * context => (fst e, ctx_tuple (snd e))) (ctxs s)))) by (rewrite map_map; exact Hnd).
+  destruct (fold_upd_get (sched_g tr p o (height s)) (sched_g_other tr p o (height s)) (sched_g_loc tr p o (height s)) _ sc Hnd') as (F1 & F2).
+  destruct (get id (ctxs s)) as [x|] eqn:Eg.
+  - rewrite <- sched_g_get. apply (F1 (id, ctx_tuple x)). apply in_map_iff. exists (id, x). split; [reflexivity|apply get_In; exact Eg].
+  - apply F2. rewrite map_map. intros Hin. apply in_map_iff in Hin. destruct Hin as ([k v] & Ek & Hin). cbn [fst] in Ek. subst k.
+    rewrite (In_get_NoDup id v (ctxs s) Hnd Hin) in Eg. discriminate.
+Qed.
+
+Lemma sched_nonend_get sc tr p st o id hh :
+  is_endblock st = false -> get id (update_sched sc tr p st o) = Some hh -> get id sc = Some hh.
+Proof.
+  intros Heb H. unfold update_sched in H. rewrite Heb in H. destruct (is_update_or_kill st) as [id0|]; [|exact H].
+  destruct (o_code o =? 0); [|exact H]. destruct (eq_dec id id0) as [->|Hne]; [rewrite get_del_same in H; discriminate|].
+  rewrite get_del_other in H by exact Hne. exact H.
+Qed.
+
+Lemma SI_nonend univ c s st sc tr pc pn pb :
+  fresh_ctx s st -> SInv s -> is_endblock st = false -> SI s sc ->
+  SI (apply c s st) (update_sched sc tr (obs_of univ pc pn pb s) st (obs_step univ c s st)).
+Proof.
+  intros Hf Hs Heb Hi id hh Hg. apply (mark_persist c s st id hh Hf Hs). apply Hi. exact (sched_nonend_get _ _ _ _ _ _ _ Heb Hg).
+Qed.
+
+Lemma SI_end univ c s dt sc tr pc pn pb :
+  0 <= dt -> SInv s -> LInv false s -> FB s -> NoDup (keys (ctxs s)) -> TI s tr -> SI s sc ->
+  SI (apply c s (EndBlock dt)) (update_sched sc tr (obs_of univ pc pn pb s) (EndBlock dt) (obs_step univ c s (EndBlock dt))).
+Proof.
+  intros Hdt Hs Hl Hfb Hk Ht Hi id hh Hg. pose proof (proj1 Hs) as Hq.
+  assert (Keep : get id sc = Some hh -> hh <= height (apply c s (EndBlock dt)) \/ get id (newmark (apply c s (EndBlock dt))) = Some hh).
+  { intros Hg0. apply (mark_persist c s (EndBlock dt) id hh I Hs). apply Hi. exact Hg0. }
+  rewrite (sched_end_get univ c s dt sc tr id pc pn pb Hk) in Hg.
+  destruct (get id (ctxs s)) as [x|] eqn:Ex; [|exact (Keep Hg)].
+  assert (C1 : match get id sc with Some hh0 => if hh0 <=? height s then None else Some hh0 | None => None end = Some hh -> get id sc = Some hh).
+  { destruct (get id sc) as [hh0|]; [|discriminate]. destruct (hh0 <=? height s); [discriminate|]. tauto. }
+  unfold sched_v in Hg. unfold obs_step in Hg. cbn [obs_of o_expmark o_ctxs] in Hg. rewrite (get_map_val ctx_tuple) in Hg.
+  cbn [ctx_tuple t_rep t_state t_total t_batch t_freq] in Hg.
+  destruct (eqb (get id (expmark s)) (Some (height s)) && x_rep x && (x_state x =? 0) && ((x_total x <? 0) || (x_batch x <? x_total x))) eqn:Ec;
+    [|exact (Keep (C1 Hg))].
+  destruct (get id tr) as [[[n h0] [|]]|] eqn:Et; try exact (Keep (C1 Hg)).
+  destruct (get id (ctxs (apply c s (EndBlock dt)))) as [x'|] eqn:Ex'; cbn [option_map] in Hg; [|exact (Keep (C1 Hg))].
+  cbn [ctx_tuple t_state t_freq] in Hg.
+  destruct ((n =? x_batch x) && (x_state x' =? 0) && (x_freq x' =? x_freq x)) eqn:Ed; [|exact (Keep (C1 Hg))].
+  injection Hg as <-. rewrite !andb_true_iff in Ec, Ed. destruct Ec as ((Ee & Est) & _). apply andb_true_iff in Ee. destruct Ee as (Ee & Er). destruct Ed as ((En & Es') & _).
+  apply (proj1 (eqb_true_iff _ _)) in Ee. apply Z.eqb_eq in Est, En, Es'.
+  rewrite apply_endblock in Ex' |- *. assert (Edt : (0 <=? dt) = true) by (apply Z.leb_le; exact Hdt). rewrite Edt in Ex' |- *.
+  pose proof (eb_tracked c s dt id x n h0 Hq Hl (Hfb id x Ex) Ex (eq_sym En) (Ht id n h0 Et) Er) as O.
+  unfold eb_out in O. destruct (loc id (end_block c s dt)) as [[cx' ex'] nw'] eqn:El.
+  pose proof (f_equal (fun t => fst (fst t)) El) as E1. pose proof (f_equal snd El) as E3. unfold loc in E1, E3. cbn [fst snd] in E1, E3.
+  rewrite Ex' in E1. subst cx'.
+  destruct O as [(_ & _ & O)|[(O & _)|[(_ & _ & O3 & _)|[(O & _)|(_ & x2 & O1 & _ & O3)]]]].
+  - contradiction.
+  - discriminate O.
+  - right. rewrite E3. exact O3.
+  - left. rewrite end_block_height. lia.
+  - injection O1 as <-. lia.
+Qed.
+
+(** ** C08, clause 4 on the model's own observations *)
+Lemma c08_clause4_obs univ c s st seen fired tr sc pc pn pb :
+  QInv s -> LInv false s -> FB s -> NoDup (keys (ctxs s)) -> good_step st -> TI s tr -> SI s sc ->
+  holds_C08 seen fired tr sc (obs_of univ pc pn pb s) st (obs_step univ c s st) <> 4.
+Proof.
+  intros Hq Hl Hfb Hk Hgood Ht Hi E.
+  apply first_fail_in in E; [|lia]. unfold holds_C08 in E; cbv zeta in E.
+  do 7 (split_seg E; [not_here E|]).
+  split_seg E.
+  { (* the tracker entries *)
+    destruct st as [|dt| | | | | | |]; try contradiction E. cbn [is_endblock] in E. simpl in Hgood.
+    split_seg E; [|not_here E].
+    apply in_map_iff in E. destruct E as ([id xt] & E & Hin). injection E as E.
+    destruct (in_obs_ctxs univ _ _ _ s _ Hk Hin) as (x & Hg & Ex). cbn [fst snd] in Hg, Ex. subst xt.
+    destruct (get id tr) as [[[n h0] [|]]|] eqn:Et; try discriminate E.
+    cbn [ctx_tuple t_rep t_state t_batch t_freq t_total] in E.
+    destruct (x_rep x && (x_state x =? 0) && (n =? x_batch x)) eqn:Ec; [|discriminate E].
+    rewrite !andb_true_iff in Ec. destruct Ec as ((Er & Est) & En). apply Z.eqb_eq in Est, En.
+    unfold obs_step in E. cbn [obs_of o_ctxs o_height] in E. rewrite (get_map_val ctx_tuple) in E.
+    rewrite apply_endblock in E. assert (Edt : (0 <=? dt) = true) by (apply Z.leb_le; exact Hgood). rewrite Edt in E.
+    pose proof (eb_tracked c s dt id x n h0 Hq Hl (Hfb id x Hg) Hg (eq_sym En) (Ht id n h0 Et) Er) as O.
+    unfold eb_out in O. destruct (loc id (end_block c s dt)) as [[cx' ex'] nw'] eqn:El.
+    pose proof (f_equal (fun t => fst (fst t)) El) as E1. unfold loc in E1. cbn [fst] in E1. rewrite E1 in E. clear El E1.
+    destruct (x_off_fields x) as (Ob & Os & _).
+    destruct O as [(O & Hne & _)|[(O & Hb)|[(O & _ & _ & Hne)|[(Heq & x2 & O & Ob2 & _)|(Heq & x2 & O & Ob2 & Os2)]]]].
+    - unfold loc in O. injection O as O _ _. rewrite Hg in O. subst cx'. cbn [option_map ctx_tuple t_batch t_state] in E.
+      rewrite <- En in E. replace (n =? n + 1) with false in E by (symmetry; apply Z.eqb_neq; lia).
+      replace (height s =? h0 + x_freq x) with false in E by (symmetry; apply Z.eqb_neq; exact Hne). discriminate E.
+    - subst cx'. cbn [option_map] in E. rewrite <- En in E. replace (n =? n + 1) with false in E by (symmetry; apply Z.eqb_neq; lia).
+      unfold belowb in Hb. rewrite Er in Hb. cbn [andb] in Hb. rewrite <- En in Hb. rewrite Hb, andb_false_r in E. discriminate E.
+    - subst cx'. cbn [option_map ctx_tuple t_batch t_state] in E. rewrite Ob, <- En in E.
+      replace (n =? n + 1) with false in E by (symmetry; apply Z.eqb_neq; lia).
+      replace (height s =? h0 + x_freq x) with false in E by (symmetry; apply Z.eqb_neq; exact Hne). discriminate E.
+    - subst cx'. cbn [option_map ctx_tuple t_batch t_state] in E. rewrite Ob2, Z.eqb_refl in E.
+      replace (height s =? h0 + x_freq x) with true in E by (symmetry; apply Z.eqb_eq; exact Heq). cbn [negb orb andb] in E. rewrite orb_true_r in E. discriminate E.
+    - subst cx'. cbn [option_map ctx_tuple t_batch t_state] in E. rewrite Ob2, Os2 in E.
+      replace (n =? n + 1) with false in E by (symmetry; apply Z.eqb_neq; lia). cbn [negb orb andb Z.eqb] in E. rewrite orb_true_r in E. discriminate E. }
+  split_seg E; [|not_here E].
+  (* no batch before the scheduled height *)
+  destruct st as [|dt| | | | | | |]; try contradiction E. cbn [is_endblock] in E.
+  apply in_map_iff in E. destruct E as ([id xt] & E & Hin). injection E as E.
+  destruct (in_obs_ctxs univ _ _ _ s _ Hk Hin) as (x & Hg & Ex). cbn [fst snd] in Hg, Ex. subst xt.
+  destruct (get id sc) as [hh|] eqn:Esc; [|discriminate E].
+  unfold obs_step in E. cbn [obs_of o_ctxs o_height] in E. rewrite (get_map_val ctx_tuple) in E.
+  destruct (get id (ctxs (apply c s (EndBlock dt)))) as [x'|] eqn:Ex'; cbn [option_map] in E; [|discriminate E].
+  cbn [ctx_tuple t_batch] in E. apply negb_false_iff, andb_true_iff in E. destruct E as (Elt & Ehh). apply Z.ltb_lt in Elt, Ehh.
+  rewrite apply_endblock in Ex'. destruct (0 <=? dt); [|rewrite Hg in Ex'; injection Ex' as <-; lia].
+  destruct (Hi id hh Esc) as [Hle|Hnm]; [lia|].
+  assert (Hex : get id (expmark s) = None).
+  { destruct (get id (expmark s)) as [e|] eqn:Ee; [|reflexivity]. rewrite (exp_no_new s id e Hq Ee) in Hnm. discriminate. }
+  destruct (end_block_loc' c s dt id Hq Hl) as (mid & P1 & P2).
+  destruct P1 as [(P1 & _)|(_ & ->)]; [congruence|]. unfold loc at 1 2 in P2. cbn [snd] in P2. rewrite Hnm in P2.
+  destruct P2 as [(P2 & _)|(_ & P2)]; [injection P2 as P2; lia|].
+  destruct (loc_inj _ _ _ P2) as (P & _). rewrite Ex', Hg in P. injection P as <-. lia.
+Qed.
